@@ -248,6 +248,7 @@ type zvdInst struct {
 	qmu     sync.Mutex
 	q       int64
 	errs    []string
+	hint    []string // identities seen at the last projection (biases the draw of arguments, nothing else)
 }
 
 func (in *zvdInst) rint(n int) int {
